@@ -46,6 +46,7 @@ CLS_OF_STEM = {'StructureType': 'CStructure', 'UnionType': 'CUnion', 'DelimitedT
 KIND_COQ = {'structure': 'KStructure', 'union': 'KUnion', 'delimited': 'KDelimited', 'service': 'KService'}
 SUPPORT_TPL = {'c': ['serialization.j2'], 'cpp': ['serialization.j2'], 'py': ['nunavut_support.j2'], 'html': []}
 ANY_J2 = 'generated for {{ T.full_name }}\n'
+CREF_FORMS = ['capacity', 'const', 'assert', 'extent']
 CONFIG_YAML = 'nunavut.lang.%s:\n  options:\n    enable_serialization_asserts: true\n'
 # nested template directories with the same basename in several sub-directories, all loaded by relative path from the
 # language's base template (include, include from an included file, macro import)
@@ -71,21 +72,42 @@ NESTED_PROBES = [
 # ---------------------------------------------------------------------------------------------
 # case generation
 # ---------------------------------------------------------------------------------------------
-def dsdl_text(t: dict, extra_field: bool = False) -> str:
+def full_name(d: dict) -> str:
+    return '%s.%s.%d.%d' % ('.'.join(d['ns']), d['name'], d['major'], d['minor'])
+
+
+def dsdl_text(t: dict, extra_field: bool = False, cmax: int = 5) -> str:
+    """every non-service type carries the constant CMAX; `crefs` are references to another definition's CMAX that occur ONLY
+    inside expressions (array capacity, constant value, @assert, @extent)"""
     def fields(prefix: str, deps: typing.List[str], n: int) -> typing.List[str]:
         out = ['uint8 %sf%d' % (prefix, j) for j in range(n)]
         out += ['%s %sd%d' % (d, prefix, j) for j, d in enumerate(deps)]
         return out
-    deps = ['%s.%s.%d.%d' % ('.'.join(d['ns']), d['name'], d['major'], d['minor']) for d in t['dep_types']]
+    # a dependency is the type of a plain field, of a fixed-length or of a variable-length array (chosen per (type, dependency))
+    forms = ['', '[2]', '[<=3]', '', '[<=2]']
+    deps = [full_name(d) + forms[(t['key'] * 7 + d['key'] * 3 + j) % len(forms)] for j, d in enumerate(t['dep_types'])]
     body = fields('', deps, max(t['nfields'], 2 if t['kind'] == 'union' and not deps else t['nfields']))
     if t['kind'] == 'union' and len(body) < 2:
         body.append('uint16 pad0')
     if extra_field:
         body.append('uint32 probe_extra')
+    if t['kind'] != 'service':
+        body.insert(0, 'uint8 CMAX = %d' % cmax)
+    extent = '%d * 8' % (64 * 4 ** (t['key'] + 1))
+    for j, cr in enumerate(t.get('crefs', [])):
+        ref = full_name(cr['target']) + '.CMAX'
+        if cr['form'] == 'capacity':
+            body.append('uint8[<=%s] ca%d' % (ref, j))
+        elif cr['form'] == 'const' or (cr['form'] == 'extent' and t['kind'] != 'delimited') or (cr['form'] == 'const' and t['kind'] == 'service'):
+            body.insert(0, 'uint16 KC%d = %s + 1' % (j, ref))
+        elif cr['form'] == 'assert':
+            body.append('@assert %s > 0' % ref)
+        else:
+            extent = '(%d + %s) * 8' % (64 * 4 ** (t['key'] + 1), ref)
     if t['kind'] == 'structure':
         return '\n'.join(body + ['@sealed']) + '\n'
     if t['kind'] == 'delimited':
-        return '\n'.join(body + ['@extent %d * 8' % (4096 * (t['key'] + 1))]) + '\n'
+        return '\n'.join(body + ['@extent ' + extent]) + '\n'
     if t['kind'] == 'union':
         return '\n'.join(['@union'] + body + ['@sealed']) + '\n'
     return '\n'.join(body + ['@sealed', '---', 'uint8 r0', '@sealed']) + '\n'
@@ -104,8 +126,12 @@ def gen_namespace(rng, with_lookup: bool, tag: str) -> typing.Tuple[typing.List[
         for j in range(n):
             sub = rng.choice([[], ['lsub']])
             deps = [rng.choice(lookups)] if lookups and rng.random() < 0.5 else []
+            crefs = []
+            cand = [x for x in lookups if x not in deps]
+            if cand and rng.random() < 0.4:
+                crefs.append({'target': rng.choice(cand), 'form': rng.choice(CREF_FORMS)})
             lookups.append({'key': 100 + j, 'ns': [lk] + sub, 'name': 'Dep' + 'abc'[j], 'major': 1, 'minor': 0, 'kind': 'structure',
-                            'nfields': rng.choice([1, 2]), 'dep_types': deps})
+                            'nfields': rng.choice([1, 2]), 'dep_types': deps, 'crefs': crefs})
     subs = [[], ['suba'], ['suba', 'deep'], ['gap', 'inner'], ['subb']]
     roots: typing.List[dict] = []
     n = rng.choice([1, 2, 3, 4, 5])
@@ -124,8 +150,12 @@ def gen_namespace(rng, with_lookup: bool, tag: str) -> typing.Tuple[typing.List[
             deps.append(rng.choice(cand))
         if lookups and rng.random() < (0.7 if j == 0 else 0.3):
             deps.append(rng.choice(lookups))
+        crefs = []
+        ccand = [x for x in cand + lookups if x not in deps]
+        if ccand and rng.random() < 0.4:
+            crefs.append({'target': rng.choice(ccand), 'form': rng.choice(CREF_FORMS)})
         roots.append({'key': 1 + j, 'ns': [root] + sub, 'name': name, 'major': major, 'minor': 0, 'kind': kind,
-                      'nfields': rng.choice([0, 1, 2]) if (deps or kind != 'union') else 2, 'dep_types': deps})
+                      'nfields': rng.choice([0, 1, 2]) if (deps or kind != 'union') else 2, 'dep_types': deps, 'crefs': crefs})
     return roots, lookups
 
 
@@ -148,10 +178,17 @@ def make_case(rng, idx: int, forced: typing.Optional[dict] = None) -> dict:
     with_lookup = f.get('lookup', rng.random() < 0.5)
     roots, lookups = f.get('types') or gen_namespace(rng, with_lookup, 'abcdefgh'[idx % 8])
     return {'idx': idx, 'lang': lang, 'mode': mode, 'omit': omit, 'ns_types': ns_types,
-            'ext': f.get('ext', rng.choice([None, None, '.xx', 'gen'])), 'stem': f.get('stem', rng.choice([None, None, 'nsx'])),
+            'ext': f.get('ext', rng.choice([None, None, '.xx', 'gen', '.x.y', '.tar.h'])),
+            'stem': f.get('stem', rng.choice([None, None, 'nsx', 'ns.x'])),
             'tpl': tpl, 'sup': sup, 'roots': roots, 'lookups': lookups, 'probes': f.get('probes', 'auto'), 'tag': f.get('tag', 'random'),
             'now': f.get('now', rng.random() < 0.25), 'embed': f.get('embed', rng.random() < 0.25), 'lc': f.get('lc', rng.random() < 0.2),
-            'config': f.get('config', lang in ('c', 'cpp') and rng.random() < 0.3)}
+            'config': f.get('config', lang in ('c', 'cpp') and rng.random() < 0.3),
+            'outdir_kind': f.get('outdir_kind', 'symlink' if rng.random() < 0.12 else 'plain')}
+
+
+def outdir_of(case: dict) -> str:
+    """--outdir as spelled on the command line; 'symlink': through a symbolic link and '..' (lexical normalisation is wrong there)"""
+    return 'lnk/../gen' if case.get('outdir_kind') == 'symlink' else 'out'
 
 
 def job_of(case: dict, work: str, rng) -> dict:
@@ -214,6 +251,12 @@ def job_of(case: dict, work: str, rng) -> dict:
             cands.append({'id': 'root-dsdl', 'path': type_rel(t, 'ns'), 'text': dsdl_text(t, True)})
         for t in case['lookups'][:2]:
             cands.append({'id': 'lookup-dsdl', 'path': type_rel(t, 'lk'), 'text': dsdl_text(t, True)})
+        const_probes = []
+        for t in case['roots'] + case['lookups']:
+            for cr in t.get('crefs', []):
+                tg = cr['target']
+                const_probes.append({'id': 'const-only:' + cr['form'], 'path': type_rel(tg, 'lk' if tg in case['lookups'] else 'ns'),
+                                     'text': dsdl_text(tg, False, cmax=9)})
         if case['tpl']:
             cands.append({'id': 'tpl:j2', 'path': 'tpl/' + ('base.j2' if lang in ('c', 'cpp', 'py') else 'type_base.j2'),
                           'append': '\nprobe line\n'})
@@ -229,13 +272,16 @@ def job_of(case: dict, work: str, rng) -> dict:
         if case.get('config'):
             cands.insert(0, {'id': 'config', 'path': 'cfg.yaml', 'text': (CONFIG_YAML % lang) + '    target_endianness: little\n'})
         probes = cands[:case.get('n_probes', 2)]
+        probes = const_probes[:1] + probes        # a constant that is referred to only inside an expression is edited
         if case['tpl'] == 'copy+nested':      # every nested file is edited once
             nested = [dict(p) for p in NESTED_PROBES]
             probes = (nested if case['tag'] == 'nested-templates' else rng.sample(nested, 2)) + probes[:1]
     elif isinstance(case['probes'], list):
         probes = case['probes']
     return {'work': work, 'files': files, 'appends': appends, 'copies': copies, 'args': args, 'root': root_dir, 'lookups': lk_dirs, 'probes': probes,
-            'inventory': inventory, 'want_trace': True, 'list_configuration': bool(case.get('lc'))}
+            'inventory': inventory, 'want_trace': True, 'list_configuration': bool(case.get('lc')), 'outdir': outdir_of(case),
+            'mkdirs': ['scratch/volume'] if case.get('outdir_kind') == 'symlink' else [],
+            'symlinks': {'lnk': 'scratch/volume'} if case.get('outdir_kind') == 'symlink' else {}}
 
 
 def run_case(job: dict) -> dict:
@@ -281,9 +327,10 @@ def coq_case(case: dict, res: dict) -> str:
     inv = res.get('inventories', {})
 
     def dtype(t: dict, base: str) -> str:
-        return ('{| t_key := %d; t_ns := [%s]; t_stem := %s; t_kind := %s; t_src := %s; t_deps := [%s] |}' % (
+        return ('{| t_key := %d; t_ns := [%s]; t_stem := %s; t_kind := %s; t_src := %s; t_deps := [%s]; t_crefs := [%s] |}' % (
             t['key'], '; '.join(s2c(x) for x in t['ns']), s2c('%s_%d_%d' % (t['name'], t['major'], t['minor'])), KIND_COQ[t['kind']],
-            coq_path(work + '/' + type_rel(t, base)), '; '.join(str(d['key']) for d in t['dep_types'])))
+            coq_path(work + '/' + type_rel(t, base)), '; '.join(str(d['key']) for d in t['dep_types']),
+            '; '.join(str(cr['target']['key']) for cr in t.get('crefs', []))))
     cfg = ('{| c_lang := lang_%s; c_flags := {| f_support := %s; f_omit := %s; f_ns := %s; f_dry := false; f_lo := false; f_li := false; '
            'f_lc := false; f_now := %s; f_embed := %s |}; c_ext := %s; c_stem := %s; c_templates := %s; c_support_templates := %s; '
            'c_config_files := [%s]; c_outdir := [%s] |}' % (
@@ -293,7 +340,7 @@ def coq_case(case: dict, res: dict) -> str:
                'None' if case['stem'] is None else 'Some ' + s2c(case['stem']),
                coq_tdir(work, 'tpl', inv.get('tpl', [])) if case['tpl'] else 'None',
                coq_tdir(work, 'sup', inv.get('sup', [])) if case['sup'] else 'None',
-               coq_path(work + '/cfg.yaml') if case.get('config') else '', s2c('out')))
+               coq_path(work + '/cfg.yaml') if case.get('config') else '', '; '.join(s2c(x) for x in outdir_of(case).split('/'))))
     inp = '{| i_roots := [%s]; i_lookup := [%s]; i_root_dir := %s |}' % (
         '; '.join(dtype(t, 'ns') for t in case['roots']), '; '.join(dtype(t, 'lk') for t in case['lookups']),
         coq_path(work + '/ns/' + case['roots'][0]['ns'][0]))
@@ -331,7 +378,8 @@ def run_model(cases: typing.List[dict], results: typing.List[dict], scratch: str
                        'created': sp(ln[6]), 'influence': sp(ln[7]), 'trig_lookup': ln[8][0] == '1', 'trig_nonj2': ln[8][1] == '1',
                        'trig_sup': ln[8][2] == '1', 'consistent': ln[8][3] == '1', 'fix_lookup': ln[8][4] == '1',
                        'fix_nonj2': ln[8][5] == '1', 'fix_suptpl': ln[8][6] == '1', 'trig_py': ln[8][7] == '1',
-                       'path_pure': ln[8][8] == '1', 'trig_sup_refs': ln[8][9] == '1', 'r_rerun': int(ln[8][10]), 'dirs': sp(ln[9])}
+                       'path_pure': ln[8][8] == '1', 'trig_sup_refs': ln[8][9] == '1', 'fix_constref': ln[8][10] == '1',
+                       'trig_constref': ln[8][11] == '1', 'r_rerun': int(ln[8][12]), 'dirs': sp(ln[9])}
         return ''
     with concurrent.futures.ThreadPoolExecutor(max_workers=6) as ex:
         errs = [e for e in ex.map(one, range(6)) if e]
@@ -344,9 +392,18 @@ def run_model(cases: typing.List[dict], results: typing.List[dict], scratch: str
 # known findings
 # ---------------------------------------------------------------------------------------------
 def witness_types() -> typing.Tuple[typing.List[dict], typing.List[dict]]:
-    dep = {'key': 100, 'ns': ['lkw'], 'name': 'Dep', 'major': 1, 'minor': 0, 'kind': 'structure', 'nfields': 1, 'dep_types': []}
+    # UsesDep -> Dep[<=3] -> Deep[2]: the looked-up types are reached through array element types only
+    deep = {'key': 102, 'ns': ['lkw', 'items'], 'name': 'Deep', 'major': 1, 'minor': 0, 'kind': 'structure', 'nfields': 1, 'dep_types': []}
+    dep = {'key': 100, 'ns': ['lkw'], 'name': 'Dep', 'major': 1, 'minor': 0, 'kind': 'structure', 'nfields': 1, 'dep_types': [deep]}
     a = {'key': 1, 'ns': ['rtw'], 'name': 'UsesDep', 'major': 1, 'minor': 0, 'kind': 'structure', 'nfields': 1, 'dep_types': [dep]}
-    return [a], [dep]
+    return [a], [dep, deep]
+
+
+def constref_types() -> typing.Tuple[typing.List[dict], typing.List[dict]]:
+    lim = {'key': 100, 'ns': ['lkc'], 'name': 'Limits', 'major': 1, 'minor': 0, 'kind': 'structure', 'nfields': 1, 'dep_types': [], 'crefs': []}
+    user = {'key': 1, 'ns': ['rtc'], 'name': 'User', 'major': 1, 'minor': 0, 'kind': 'structure', 'nfields': 0, 'dep_types': [],
+            'crefs': [{'target': lim, 'form': 'capacity'}, {'target': lim, 'form': 'const'}]}
+    return [user], [lim]
 
 
 def plain_types() -> typing.Tuple[typing.List[dict], typing.List[dict]]:
@@ -373,9 +430,13 @@ def witness_cases() -> typing.List[dict]:
              probes=[{'id': 'tpl:nonj2', 'path': 'tpl/namespace_base.js', 'append': '\n// probe line\n'}]),
         dict(base, lang='c', tpl=None, sup='shadow', types=plain_types(), tag='F-LIST-INPUTS-SUPTPL',
              probes=[{'id': 'sup:shadow', 'path': 'sup/serialization.j2', 'append': '\nprobe line\n'}]),
+        dict(base, lang='c', tpl=None, sup=None, types=constref_types(), tag='F-LIST-INPUTS-CONSTREF', config=False,
+             probes=[{'id': 'const-only:capacity', 'path': 'lk/lkc/Limits.1.0.dsdl', 'text': dsdl_text(constref_types()[1][0], False, cmax=9)}]),
         # the repaired F-LIST-ONLY-POD must stay repaired
         dict(base, lang='c', mode='only', omit=True, tpl=None, sup=None, types=plain_types(), tag='fixed:F-LIST-ONLY-POD', probes=[]),
         dict(base, lang='c', mode='always', omit=True, tpl=None, sup=None, types=plain_types(), tag='rejected', probes=[]),
+        # --outdir spelled through a symbolic link and '..': the listing must denote the files the run creates
+        dict(base, lang='c', tpl=None, sup=None, types=plain_types(), tag='symlink-outdir', outdir_kind='symlink', probes=[]),
         # nested custom template directories with duplicate basenames, every file edited once
         dict(base, lang='c', mode='never', tpl='copy+nested', sup=None, types=plain_types(), tag='nested-templates', probes='auto'),
         dict(base, lang='py', mode='as-needed', tpl='copy+nested', sup='other', types=plain_types(), tag='nested-templates', probes='auto'),
@@ -399,11 +460,25 @@ def known_entries(chk: core.Check) -> None:
         pass
 
 
-def category(path: str, work: str, root_dir: str) -> str:
+def composite_reach(case: dict, work: str) -> typing.Set[str]:
+    """the .dsdl files reachable from the root types through the types of FIELDS only (what DependencyBuilder follows)"""
+    seen: typing.Set[str] = set()
+    todo = list(case['roots'])
+    while todo:
+        t = todo.pop()
+        p = work + '/' + type_rel(t, 'lk' if t in case['lookups'] else 'ns')
+        if p not in seen:
+            seen.add(p)
+            todo += t['dep_types']
+    return seen
+
+
+def category(path: str, work: str, root_dir: str, comp: typing.Optional[typing.Set[str]] = None) -> str:
     if path.endswith(('.yaml', '.yml')):
         return 'config'       # outside the property's wording ("every template and every DSDL file"): counted, not a violation
     if path.endswith('.dsdl') and not path.startswith(root_dir + '/'):
-        return 'F-LIST-INPUTS-LOOKUP'
+        # reached only through a constant used in an expression, or (also) as the type of a field
+        return 'F-LIST-INPUTS-LOOKUP' if (comp is None or path in comp) else 'F-LIST-INPUTS-CONSTREF'
     if path.startswith(work + '/sup/'):
         return 'F-LIST-INPUTS-SUPTPL'
     if not path.endswith('.j2') and not path.endswith('.dsdl'):
@@ -514,6 +589,7 @@ def main(chk: core.Check, replay: typing.Optional[str] = None) -> int:
         md = r['modes']
         work = r['work']
         root_dir = work + '/ns/' + c['roots'][0]['ns'][0]
+        comp = composite_reach(c, work)
         m = model[i] if model is not None else None
         rcs = [md[x]['rc'] for x in ('list_outputs', 'list_inputs', 'dry_run', 'real')]
 
@@ -556,16 +632,25 @@ def main(chk: core.Check, replay: typing.Optional[str] = None) -> int:
             continue
         stats['successful'] += 1
         # ---- the property on the implementation (falsifier / oracle) ----
-        created = set('/'.join(['out'] + p.split('/')[1:]) if p.startswith('out/') else p for p in md['real']['created_files'])
-        stray = sorted(p for p in created if not p.startswith('out/'))
+        # paths are compared as the files they denote (real paths relative to the scratch tree): the output directory may be
+        # spelled through a symbolic link and '..'
+        real_out = r.get('real_outdir', 'out')
+        pre_dirs = set(r.get('pre_dirs', []))
+
+        def real_rel(p: str) -> str:
+            return os.path.relpath(os.path.realpath(os.path.join(work, p)), work)
+        created = set(md['real']['created_files'])
+        stray = sorted(p for p in created if not p.startswith(real_out + '/'))
         listed_out = md['list_outputs']['listing']
+        listed_real = set(md['list_outputs'].get('listing_real', listed_out))
         if md['list_outputs']['rc'] != 0:
             fail('real run succeeds but --list-outputs fails', stderr=md['list_outputs']['stderr'])
-        elif set(listed_out) != created:
-            fail('--list-outputs differs from the files the real run created', listed_only=sorted(set(listed_out) - created),
-                 created_only=sorted(created - set(listed_out)))
-        if stray or md['real']['touched_existing'] and any(not p.startswith('out') and p != '.' for p in md['real']['touched_existing']):
-            fail('real run wrote outside the output directory', stray=stray, touched=md['real']['touched_existing'])
+        elif listed_real != created:
+            fail('--list-outputs differs from the files the real run created', listed_only=sorted(listed_real - created),
+                 created_only=sorted(created - listed_real))
+        touched = [p for p in md['real']['touched_existing'] if not (real_out + '/').startswith(p + '/')]
+        if stray or touched:
+            fail('real run wrote outside the output directory', stray=stray, touched=touched)
         if set(md['over_existing']['listing']) != set(listed_out):
             fail('--list-outputs changes when the output tree exists')
         exp_dirs = set()
@@ -573,6 +658,7 @@ def main(chk: core.Check, replay: typing.Optional[str] = None) -> int:
             parts = p.split('/')
             for k in range(1, len(parts)):
                 exp_dirs.add('/'.join(parts[:k]))
+        exp_dirs -= pre_dirs
         if set(md['real']['created_dirs']) != exp_dirs:
             fail('directories created by the real run are not exactly the parents of the created files',
                  dirs=md['real']['created_dirs'], expected=sorted(exp_dirs))
@@ -603,11 +689,12 @@ def main(chk: core.Check, replay: typing.Optional[str] = None) -> int:
         stats['influential_inputs_checked'] += len(measured)
         missing = sorted(measured - listed_in)
         for x in missing:
-            cat = category(x, work, root_dir)
+            cat = category(x, work, root_dir, comp)
             explained = (cat in live and live[cat] and chk.is_known(cat)
                          and (m is None or (x in m['influence'] and x not in m['li']))
                          and (m is None or {'F-LIST-INPUTS-LOOKUP': m['trig_lookup'], 'F-LIST-INPUTS-NONJ2': m['trig_nonj2'],
-                                            'F-LIST-INPUTS-SUPTPL': m['trig_sup']}[cat]))
+                                            'F-LIST-INPUTS-SUPTPL': m['trig_sup'],
+                                            'F-LIST-INPUTS-CONSTREF': m['trig_constref'] and not m['fix_constref']}[cat]))
             if explained:
                 stats['known_finding_instances'] += 1
             else:
@@ -620,16 +707,16 @@ def main(chk: core.Check, replay: typing.Optional[str] = None) -> int:
             if pr['n_changed'] > 0:
                 stats['probes_changed'] += 1
                 if pr['path'] not in listed_in:
-                    cat = category(pr['path'], work, root_dir)
+                    cat = category(pr['path'], work, root_dir, comp)
                     if cat == 'config':
                         stats['config_inputs_influential_and_unlisted'] += 1
                     elif cat in live and live[cat] and chk.is_known(cat) and pr['path'] in measured:
                         stats['probes_unlisted_changed_known'] += 1
                     else:
                         fail('editing an input that --list-inputs does not name changed the generated output', probe=pr, category=cat)
-                if pr['path'] not in measured and category(pr['path'], work, root_dir) != 'config':
+                if pr['path'] not in measured and category(pr['path'], work, root_dir, comp) != 'config':
                     mism.append({'case': c, 'what': 'an edited input changed the output but is not in the measured influence set', 'probe': pr})
-                if m is not None and pr['path'] not in m['influence'] and category(pr['path'], work, root_dir) != 'config':
+                if m is not None and pr['path'] not in m['influence'] and category(pr['path'], work, root_dir, comp) != 'config':
                     mism.append({'case': c, 'what': 'an edited input changed the output but is not in the influence set the model derives',
                                  'probe': pr})
         # ---- model vs. implementation ----
@@ -638,12 +725,13 @@ def main(chk: core.Check, replay: typing.Optional[str] = None) -> int:
             if m['r_real'] != 0 or m['r_lo'] != 0 or m['r_li'] != 0 or m['r_dry'] != 0:
                 mism.append({'case': c, 'what': 'model run fails, implementation succeeds', 'model': [m['r_real'], m['r_lo'], m['r_li'], m['r_dry']]})
                 continue
-            if set(m['lo']) != set(listed_out) or set(m['created']) != created:
+            if set(m['lo']) != set(listed_out) or set(real_rel(p) for p in m['created']) != created:
                 mism.append({'case': c, 'what': 'output listing / created files: model vs implementation',
                              'model_only': sorted((set(m['lo']) | set(m['created'])) - set(listed_out) - created),
                              'impl_only': sorted((set(listed_out) | created) - set(m['lo']) - set(m['created']))})
             # a finding that no longer reproduces although the translator does not recognise its repair: the quirk model is off
             quirk_off = ((m['trig_lookup'] and not m['fix_lookup'] and not live.get('F-LIST-INPUTS-LOOKUP', True))
+                         or (m['trig_constref'] and not m['fix_constref'] and not live.get('F-LIST-INPUTS-CONSTREF', True))
                          or (m['trig_nonj2'] and not m['fix_nonj2'] and not live.get('F-LIST-INPUTS-NONJ2', True))
                          or (m['trig_sup'] and not m['fix_suptpl'] and not live.get('F-LIST-INPUTS-SUPTPL', True)))
             if not quirk_off and set(m['li']) != listed_in:
@@ -656,7 +744,7 @@ def main(chk: core.Check, replay: typing.Optional[str] = None) -> int:
                              'impl_only': sorted(measured - set(m['influence']))})
             stats['derived_influence_total'] += len(set(m['influence']))
             stats['derived_influence_not_observed'] += len(set(m['influence']) - measured)
-            if set(m['dirs']) != set(md['real']['created_dirs']):
+            if set(real_rel(p) for p in m['dirs']) - pre_dirs != set(md['real']['created_dirs']):
                 mism.append({'case': c, 'what': 'created directories: model vs implementation', 'model': m['dirs'], 'impl': md['real']['created_dirs']})
             rr = md.get('rerun')
             if rr is not None:
@@ -681,7 +769,7 @@ def main(chk: core.Check, replay: typing.Optional[str] = None) -> int:
                 'with the model',
         'samples': samples, 'traces_validated_against_impl': stats['model_compared'], 'distribution': stats,
         'known_findings_live': live,
-        'list_inputs_repairs_recognised_in_tree': ({k: model[0][k] for k in ('fix_lookup', 'fix_nonj2', 'fix_suptpl')}
+        'list_inputs_repairs_recognised_in_tree': ({k: model[0][k] for k in ('fix_lookup', 'fix_constref', 'fix_nonj2', 'fix_suptpl')}
                                                    if model and model[0] else None),
     })
 
